@@ -132,7 +132,7 @@ def nth(ctx, kind, unit, nmax, ylo, yhi):
 
 def cases(tier):
     out = []
-    win = (1998, 2000) if tier == "quick" else (1601, 2000)
+    win = (1998, 2000)
     kinds = ("date", "utc") if tier == "quick" else ("date", "utc", "naive")
     for kind in kinds:
         for op in ("next", "previous"):
